@@ -101,6 +101,11 @@ OPS1 = {
     "aseq3": ("mg.add_sequence({0}, {0}, {0})", lambda t: __import__("mygrad").add_sequence(t, t, t), lambda a: a + a + a, lambda s: True),
     "viaview": ("{0}[:1] * 2.0", lambda t: t[:1] * 2.0, lambda a: a[:1] * 2.0, lambda s: len(s) >= 1),
     "sumc": ("mg.sum({0}, constant=True)", lambda t: __import__("mygrad").sum(t, constant=True), lambda a: np.asarray(a.sum()), lambda s: True),
+    # ops fed the same tensor more than once (per-op caches keyed by operand identity; placeholders after an in-place update)
+    "einxx": ("mg.einsum('...,...->...', {0}, {0})", lambda t: __import__("mygrad").einsum("...,...->...", t, t), lambda a: a * a, lambda s: True),
+    "einxx_r": ("mg.einsum('...,...->', {0}, {0})", lambda t: __import__("mygrad").einsum("...,...->", t, t), lambda a: (a * a).sum(), lambda s: True),
+    "catxx": ("mg.concatenate([{0}, {0}])", lambda t: __import__("mygrad").concatenate([t, t]), lambda a: np.concatenate([a, a]), lambda s: len(s) >= 1),
+    "matxx": ("mg.matmul({0}, {0})", lambda t: __import__("mygrad").matmul(t, t), lambda a: (a * a).sum(), lambda s: len(s) == 1),
     "sum": ("{0}.sum()", lambda t: t.sum(), lambda a: a.sum(), lambda s: True),
     "sum0": (
         "{0}.sum(axis=0, keepdims=True)",
